@@ -215,6 +215,17 @@ def shape_fmt(item, ob):
         ob.paths += 1; name = f'NInt formatting impl #{idx}'
         if kd != 'ok': ob.missing(name, f'{kd}: {res}'); continue
         ob.check(name, pc, z3.And(z3.BoolVal(len(res) == 1), res[0][2] == N) if res else z3.BoolVal(False), cls='C16/NInt fmt', sample=f'forwards the value itself to {res[0][1] if res else "?"}'); ob.witness('fmt')
+        if res and res[0][1] != 'Display':
+            # the radix formatters of a machine word print the two's complement of a negative value, those of BigInt sign and magnitude:
+            # the rendering is the same for both representations only if a machine-word radix formatter never sees a negative value
+            tr = res[0][1]; spec = {'LowerHex': '#x', 'UpperHex': '#X', 'Binary': '#b', 'Octal': '#o'}.get(tr)
+            def replay(model, spec=spec):
+                n = mval(model, N)
+                if spec is None or not (-(1 << 63) <= n < (1 << 63)): return None
+                return {'program': 'F"{' + fmt_int(n) + ' ' + spec + '}" == F"{' + fmt_big(n) + ' ' + spec + '}"', 'expect': {'equals': 'OK 1'}}
+            goal = z3.BoolVal(True) if len(res[0]) > 3 and res[0][3] in ('BigInt',) else N >= 0
+            ob.check(name + f' {tr}: same rendering for both representations', pc, goal, replay=replay, cls=f'C16/NInt fmt/{tr} of a negative machine word',
+                     prefer=[[z3.And(N >= -300, N <= 300)]], sample='a machine-word radix formatter is reached only for non-negative values')
     traits = {tuple(r[1] for r in p[2]) for p in ps + pb if p[1] == 'ok'}
     ob.check(f'NInt formatting impl #{idx}: same trait for both representations', [], z3.BoolVal(len(traits) == 1), cls='C16/NInt fmt', sample=str(traits))
     ob.absorb_engine(E)
@@ -248,8 +259,72 @@ def shape_json_int(item, ob):
         ob.check(name + ' is the integer itself when it fits 64 bits', pc, goal, replay=replay, cls='C16/json int/value', prefer=pref, sample='Value::from(i64 n) iff n fits i64, for either representation'); ob.witness(v.variant if v is not None else 'err')
     ob.absorb_engine(E)
 
+def shape_conv_str(item, ob):
+    """int("ddd…") / number("ddd…") on a digit string of k symbolic digits (k up to 20, i.e. beyond 64 bits): the exact integer the text spells"""
+    tname, k = item
+    E = eng(); f = find_fn(E, 'call_type1'); D = [digit(f'd{i}') for i in range(k)]
+    def run():
+        for c in D: E.assume(is_digit(c))
+        s = Adt('Obj', 'Seq', [Adt('Seq', 'String', [RcV(RcObj(Seq(list(D))))])])
+        return E.run_fn(f, [Ref(Cell(Adt('ObjType', tname, []))), s])
+    fname = {'Int': 'int', 'Number': 'number'}[tname]
+    def replay(model):
+        t = ''.join(chr(mval(model, c)) for c in D)
+        return {'program': f'v := {fname}("{t}"); [v, v is int]', 'expect': {'equals': f'OK [{int(t)}, 1]'}}
+    pref = [[z3.And(*[c == 57 for c in D])]] if D else []
+    for pc, kd, res, lg in E.explore(run):
+        ob.paths += 1; name = f'{fname}(string of {k} digits)'
+        if kd == 'panic': ob.panic(name + ' panic-free', pc, res, replay=replay, cls='C16/conversion from string/panic', prefer=pref); continue
+        if kd != 'ok': ob.missing(name, f'{kd}: {res}'); continue
+        v = res.fields[0] if res.variant == 'Ok' else None
+        if v is None or not (v.variant == 'Num' and v.fields[0].variant == 'Int'): goal = z3.BoolVal(False)
+        else: goal = v.fields[0].fields[0].fields[0] == dval(D)
+        ob.check(name + ' is the exact integer', pc, goal, replay=replay, cls='C16/conversion from string/value', prefer=pref, sample='an integer of any size keeps every digit'); ob.witness(res.variant)
+    ob.absorb_engine(E)
+
+def shape_rational_dec(item, ob):
+    """rational("p/q") where p or q is written as a decimal: the exact quotient; a zero denominator is rejected, nothing panics"""
+    form, = item          # 'd.d/d' | 'd/d.d' | 'd/0.d' | 'd.d/d.d'
+    E = eng(); f = find_fn(E, 'parse_rational_exactly')
+    names = iter('abcdefgh'); parts = []; chars = []
+    for ch in form:
+        if ch == 'd':
+            c = digit('r' + next(names)); parts.append(c); chars.append(c)
+        else: chars.append(z3.IntVal(ord(ch)))
+    digs = [c for c in chars if not z3.is_int_value(c)]
+    def value_of(model_or_none=None):
+        # exact value of each side from its digits
+        sides = form.split('/'); vals = []; it = iter(digs)
+        for sd in sides:
+            ip, _, fp = sd.partition('.')
+            iv = z3.IntVal(0)
+            for ch in ip: iv = iv * 10 + ((next(it) - 48) if ch == 'd' else z3.IntVal(int(ch)))
+            fv = z3.IntVal(0)
+            for ch in fp: fv = fv * 10 + (next(it) - 48)
+            vals.append(z3.ToReal(iv) + (z3.ToReal(fv) / (10 ** len(fp)) if fp else 0))
+        return vals
+    P, Q = value_of()
+    def run():
+        for c in digs: E.assume(is_digit(c))
+        return E.run_fn(f, [Ref(Cell(Seq(list(chars))))])
+    def replay(model):
+        from fractions import Fraction
+        t = ''.join(chr(mval(model, c)) if not z3.is_int_value(c) else chr(c.as_long()) for c in chars)
+        p, q = t.split('/'); qv = Fraction(q)
+        if qv == 0: return {'program': f'try rational("{t}") catch e -> "err"', 'expect': {'equals': 'OK "err"'}}
+        return {'program': f'rational("{t}")', 'expect': {'equals': 'OK ' + repr_q(Fraction(p) / qv)}}
+    for pc, kd, res, lg in E.explore(run):
+        ob.paths += 1; name = f'parse_rational_exactly {form}'
+        if kd == 'panic': ob.panic(name + ' panic-free', pc, res, replay=replay, cls='C16/parse_rational/panic'); continue
+        if kd != 'ok': ob.missing(name, f'{kd}: {res}'); continue
+        goal = (Q == 0) if res.variant == 'None' else z3.And(Q != 0, res.fields[0].v * Q == P)
+        ob.check(name + f' -> {res.variant}', pc, goal, replay=replay, cls='C16/parse_rational/value', sample='p/q exactly for decimal p, q; zero denominator rejected'); ob.witness(res.variant)
+    ob.absorb_engine(E)
+
 def run_shape(item, ob):
     fam, payload = item
+    if fam == 'conv_str': return shape_conv_str(payload, ob)
+    if fam == 'rational_dec': return shape_rational_dec(payload, ob)
     {'decimal': shape_decimal, 'rational': shape_rational, 'str_radix': shape_str_radix, 'int_radix': shape_int_radix, 'roundtrip': shape_roundtrip, 'fmt': shape_fmt,
      'json_int': shape_json_int}[fam](payload, ob)
 
@@ -280,6 +355,9 @@ def main(tier, seed, t0):
         items.append(('roundtrip', (b, 3)))
     for k in range(5): items.append(('fmt', k))
     for rep in ('Small', 'Big'): items.append(('json_int', (rep,)))
+    for tname in ('Int', 'Number'):
+        for k in (1, 3, 19, 20): items.append(('conv_str', (tname, k)))
+    for form in ('d.d/d', 'd/d.d', 'd/0.d', 'd.d/d.d', '0.d/d'): items.append(('rational_dec', (form,)))
     rnd.shuffle(items)
     merged, per = pmap(run_shape, items, tier)
     return finish(PROP, tier, seed, merged, t0, th=th,
